@@ -29,6 +29,7 @@ type table struct {
 	Invs   []run.Inv         `json:"invs"`
 	Faults map[string]string `json:"faults"`
 	Delay  int               `json:"delay_ms"`
+	Delays map[string]int    `json:"delays_ms"` // extra time a particular job takes
 }
 
 var chunkRe = regexp.MustCompile(`^chnk(\d+)(?:-u[0-9a-f]{10})?$`)
@@ -147,6 +148,9 @@ func main() {
 	emit("StageBegin", "job", key, "known", inv != nil, "argsOk", argsOk, "detail", detail, "md", rel)
 	if tb.Delay > 0 {
 		time.Sleep(time.Duration(tb.Delay) * time.Millisecond)
+	}
+	if d := tb.Delays[key]; d > 0 {
+		time.Sleep(time.Duration(d) * time.Millisecond)
 	}
 	fault := tb.Faults[key]
 	// "signal*2": the fault for the first two executions of this job, none afterwards
